@@ -13,9 +13,23 @@ Clauses of the property and where they are stated:
                                                            lattice_nodup, lattice_size_grows, nUnits_least,
                                                            lattice_length_le_cube
   * "trains ... on the data relabelled and reweighted"     best_response, best_response_argmin
-  * "selected model minimises (1-cw)*objective+cw*max"     tradeoff_spec, argminFirst_spec
+  * "selected model minimises (1-cw)*objective+cw*max"     tradeoff_spec, argminFirst_spec, select_spec,
+                                                           runningArgmin_eq
+  * "predict/predict_proba delegate to exactly that model" predict_delegates
+  * the whole `for i in grid.columns` loop in one statement  fit_spec, fit_predictor_minimises_lagrangian
+  * TIE TO THE SOURCE (Generated/GridSrc.lean, lifted by harness/lifters/grid.py on every run): the model's
+    `srcLattice`/`accumulate`, `nUnits`, `searchFrom`, `grid`, `tradeoff`, `argminFirst`, `relabel` are DEFINED
+    over the lifted expressions; `source_lattice_eq`, `source_accumulate_eq` (+ the `_def` bridge lemmas of
+    `Lemmas/Grid.lean`) show they are the closed forms the theorems here talk about.
+  * the float starting point of the search             estimate_harmless, search_from_any_start,
+                                                           overshoot_grid_still_valid
+  * order of the enumeration, truncation = prefix          lattice_lex_sorted, truncation_keeps_least
+  * the zero vector                                        zero_mem_lattice_iff, zero_point_gives_zero_lambda,
+                                                           zero_lambda_mem_grid_iff, forced_grid_excludes_zero
+  * force_L1_norm: L1 norm exactly grid_limit               forced_grid_l1_eq_limit
+  * grid_offset                                            grid_offset_distinct
 -/
-import FairModel.Lemmas.Grid
+import FairModel.Lemmas.GridMore
 
 namespace C09
 open Grid
@@ -102,14 +116,14 @@ theorem grid_exists (na : List Bool) (f : Bool) (gs : Nat) (limit : Rat)
   | succ n =>
     refine ⟨n + 1, ((lattice na f (n + 1)).take gs).map
       (fun v => lambdaOf rows (scaleCoefs limit (n + 1) v)), ?_, by omega, hn, ?_⟩
-    · simp only [grid, hn]
+    · simp only [grid_def, hn]
     · simp only [List.length_map, List.length_take]; omega
 
 theorem grid_length (na : List Bool) (f : Bool) (gs : Nat) (limit : Rat)
     (rows : List (List Rat × List Rat)) (n : Nat) (g : List (List Rat))
     (hg : grid na f gs limit rows = .ok (n, g)) :
     g.length = min gs (lattice na f n).length ∧ nUnits na f gs = some n ∧ 1 ≤ n := by
-  unfold grid at hg
+  rw [grid_def] at hg
   split at hg
   · cases hg
   · cases hg
@@ -122,7 +136,7 @@ theorem grid_mem (na : List Bool) (f : Bool) (gs : Nat) (limit : Rat)
     (rows : List (List Rat × List Rat)) (n : Nat) (g : List (List Rat))
     (hg : grid na f gs limit rows = .ok (n, g)) (lam : List Rat) (hl : lam ∈ g) :
     1 ≤ n ∧ ∃ v ∈ lattice na f n, lam = lambdaOf rows (scaleCoefs limit n v) := by
-  unfold grid at hg
+  rw [grid_def] at hg
   split at hg
   · cases hg
   · cases hg
@@ -157,7 +171,7 @@ theorem grid_l1_le_limit (na : List Bool) (f : Bool) (gs : Nat) (limit : Rat) (h
   have hlat := lattice_l1 na f n v hv
   have hnpos : (0 : Rat) < n := by exact_mod_cast hn
   have hs : 0 ≤ limit / (n : Rat) := div_nonneg hlim (le_of_lt hnpos)
-  have h1 := lambdaOf_sum_le hb (scaleCoefs limit n v) (by simp [scaleCoefs, hlat.1])
+  have h1 := lambdaOf_sum_le hb (scaleCoefs limit n v) (by simp [scaleCoefs_def, hlat.1])
   rw [scale_parts_sum (limit / n) hs n limit rfl v] at h1
   have h2 : (l1 v : Rat) ≤ n := by exact_mod_cast hlat.2.1
   calc (lambdaOf rows (scaleCoefs limit n v)).sum ≤ (l1 v : Rat) * (limit / n) := h1
@@ -170,7 +184,7 @@ theorem grid_distinct (na : List Bool) (f : Bool) (gs : Nat) (limit : Rat) (hlim
     (rows : List (List Rat × List Rat)) (n : Nat) (g : List (List Rat))
     (hu : unitBasis na rows = true)
     (hg : grid na f gs limit rows = .ok (n, g)) : g.Nodup := by
-  unfold grid at hg
+  rw [grid_def] at hg
   split at hg
   · cases hg
   · cases hg
@@ -203,7 +217,7 @@ theorem argminFirst_spec (l : List Rat) (i : Nat) (h : argminFirst l = some i) :
   cases l with
   | nil => simp [argminFirst] at h
   | cons x xs =>
-    simp only [argminFirst, Option.some.injEq] at h
+    simp only [argminFirst_cons, Option.some.injEq] at h
     have hmem := minL_mem x xs
     have hi : i < (x :: xs).length := by rw [← h]; exact List.idxOf_lt_length_iff.mpr hmem
     have hval : (x :: xs)[i] = minL x xs := by
@@ -255,7 +269,7 @@ theorem maxL_spec : ∀ (x : Rat) (xs : List Rat), maxL x xs ∈ x :: xs ∧ ∀
 /-- the trade-off loss of one predictor -/
 theorem tradeoff_spec (cw obj g : Rat) (gs : List Rat) :
     ∃ m, tradeoff cw obj (g :: gs) = some ((1 - cw) * obj + cw * m) ∧ m ∈ g :: gs ∧ ∀ y ∈ g :: gs, y ≤ m :=
-  ⟨maxL g gs, rfl, (maxL_spec g gs).1, (maxL_spec g gs).2⟩
+  ⟨maxL g gs, tradeoff_cons cw obj g gs, (maxL_spec g gs).1, (maxL_spec g gs).2⟩
 
 /-- Best response, part 1: the weighted 0/1 error of a labeling `h` on the data relabelled
     (`1[w>0]`) and reweighted (`|w|`) by GridSearch equals `Σ max(w_i,0) − Σ w_i h_i`. -/
@@ -283,6 +297,265 @@ theorem best_response_argmin (w : List Rat) (K c : Rat) (hc : 0 < c) (F : List N
     have := le_of_mul_le_mul_left this hc
     linarith
 
+/-! ### tie to the source -/
+
+/-- The recursion of `_GridGenerator.accumulate_integer_grid`, run over the LIFTED expressions (base-case
+    test, last-coordinate rule, `range(min_val, max_val + 1)`, `index + 1`, `max_val - abs(current_value)`),
+    enumerates from coordinate `i` on exactly the closed-form lattice of the remaining coordinates. -/
+theorem source_accumulate_eq (na : List Bool) (f : Bool) (fuel i m : Nat) (hi : i ≤ na.length)
+    (hf : na.length - i + 1 ≤ fuel) :
+    accumulate na.length na f fuel (i : Int) (m : Int) = lattice (na.drop i) f m :=
+  accumulate_eq na f fuel i m hi hf
+
+/-- `build_integer_grid(m)` as lifted from the source is the lattice all theorems above are about. -/
+theorem source_lattice_eq (na : List Bool) (f : Bool) (m : Nat) : srcLattice na f m = lattice na f m :=
+  srcLattice_eq na f m
+
+/-- … hence the sound-and-complete description holds of the source-derived enumeration itself. -/
+theorem source_lattice_mem_iff (na : List Bool) (f : Bool) (n : Nat) (v : List Int) :
+    v ∈ srcLattice na f n ↔ SignOK na v ∧ (if f && !na.isEmpty then l1 v = n else l1 v ≤ n) := by
+  rw [srcLattice_eq]; exact mem_lattice na f n v
+
+/-! ### the float starting point of the `while True` search (the estimate is an INPUT `n0`) -/
+
+/-- From ANY start `n0` the loop `if enough: break; n_units = n_units + 1` stops at
+    `max n0 (least sufficient radius)`. -/
+theorem search_from_any_start (na : List Bool) (f : Bool) (gs n0 : Nat) (h : 1 ≤ trueDim na f) :
+    ∃ nl, nUnits na f gs = some nl ∧
+      searchFrom na f gs (gs + 2) (n0 : Nat) = some ((max n0 nl : Nat) : Int) := by
+  obtain ⟨nl, hn, hle, hge, hlt⟩ := nUnits_least na f gs h
+  obtain ⟨b, bs, rfl, hb⟩ := (trueDim_pos_iff na f).mp h
+  exact ⟨nl, hn, searchFrom_spec b bs f gs nl hb hge hlt (gs + 2) n0 (by omega)⟩
+
+/-- If the float estimate does not exceed the exact value of the lifted expression
+    `⌊(grid_size / 2^k)^(1/true_dim) − 1⌋` (predicate `GridSrc.noOvershoot`, evaluated by the driver on the
+    float estimate of every generated case), then it is at most the least sufficient radius … -/
+theorem estimate_le_least (na : List Bool) (f : Bool) (gs n0 : Nat) (h : 1 ≤ trueDim na f)
+    (hno : GridSrc.noOvershoot gs (negCount na) (trueDim na f) n0 = true) :
+    ∃ nl, nUnits na f gs = some nl ∧ n0 ≤ nl := by
+  obtain ⟨nl, hn, _, hge, _⟩ := nUnits_least na f gs h
+  exact ⟨nl, hn, noOvershoot_le_least na f gs n0 nl h hno hge⟩
+
+/-- … and the generated grid is the SAME for every such start: float error in `** (1 / true_dim)` is
+    harmless as long as it does not overshoot. -/
+theorem estimate_harmless (na : List Bool) (f : Bool) (gs : Nat) (limit : Rat)
+    (rows : List (List Rat × List Rat)) (n0 : Nat) (h : 1 ≤ trueDim na f)
+    (hno : GridSrc.noOvershoot gs (negCount na) (trueDim na f) n0 = true) :
+    gridFrom na f gs limit rows n0 = grid na f gs limit rows := by
+  obtain ⟨nl, hn, hle⟩ := estimate_le_least na f gs n0 h hno
+  obtain ⟨nl', hn', hs⟩ := search_from_any_start na f gs n0 h
+  rw [hn] at hn'; cases hn'
+  rw [gridFrom_def, grid_def, hs, hn, Nat.max_eq_right hle]
+  cases nl with
+  | zero => simp
+  | succ k => simp [gridAt]
+
+/-- On OVERSHOOT (any start `n0` whatsoever) the grid is built at radius `max n0 nl ≥ nl` — coarser — but
+    still satisfies every clause: `grid_size` vectors, non-negative, L1 norm ≤ `grid_limit`, distinct. -/
+theorem overshoot_grid_still_valid (na : List Bool) (f : Bool) (gs : Nat) (limit : Rat) (hlim : 0 < limit)
+    (rows : List (List Rat × List Rat)) (n0 n : Nat) (g : List (List Rat)) (h : 1 ≤ trueDim na f)
+    (hb : basisOK na.length rows = true)
+    (hg : gridFrom na f gs limit rows n0 = .ok (n, g)) :
+    (∃ nl, nUnits na f gs = some nl ∧ n = max n0 nl) ∧ 1 ≤ n ∧ g.length = gs ∧
+    (∀ lam ∈ g, ∀ x ∈ lam, 0 ≤ x) ∧ (∀ lam ∈ g, (lam.map (fun x => |x|)).sum ≤ limit) ∧
+    (unitBasis na rows = true → g.Nodup) := by
+  obtain ⟨nl, hn, hs⟩ := search_from_any_start na f gs n0 h
+  obtain ⟨_, hn', _, hge, _⟩ := nUnits_least na f gs h
+  rw [hn] at hn'; cases hn'
+  rw [gridFrom_def, hs] at hg
+  simp only [Int.toNat_natCast] at hg
+  split at hg
+  · cases hg
+  · next hpos =>
+    cases hg
+    have hn1 : 1 ≤ max n0 nl := by omega
+    obtain ⟨b, bs, rfl, hbb⟩ := (trueDim_pos_iff na f).mp h
+    have hlen := lattice_length_mono' b bs f hbb (show nl ≤ max n0 nl by omega)
+    refine ⟨⟨nl, hn, rfl⟩, hn1, ?_, gridAt_nonneg _ f gs limit rows _ hb,
+      gridAt_l1 _ f gs limit (le_of_lt hlim) rows _ hn1 hb,
+      fun hu => gridAt_nodup _ f gs limit hlim rows _ hn1 hu⟩
+    simp only [gridAt, List.length_map, List.length_take]; omega
+
+/-! ### order of the enumeration -/
+
+/-- The integer grid is enumerated in strictly increasing LEXICOGRAPHIC order. -/
+theorem lattice_lex_sorted (na : List Bool) (f : Bool) (n : Nat) :
+    (lattice na f n).Pairwise (List.Lex (· < ·)) :=
+  lattice_sorted na f n
+
+/-- `accumulator[:grid_size]` keeps a prefix: the kept points are the `grid_size` lexicographically smallest
+    ones (each kept point precedes each dropped point). -/
+theorem truncation_keeps_least (na : List Bool) (f : Bool) (n gs : Nat) :
+    ∀ v ∈ (lattice na f n).take gs, ∀ w ∈ (lattice na f n).drop gs, List.Lex (· < ·) v w :=
+  take_lt_drop _ _ (lattice_sorted na f n) gs
+
+/-! ### the zero vector -/
+
+/-- The all-zero point belongs to the integer grid iff the L1 norm is not forced (or the radius is 0). -/
+theorem zero_mem_lattice_iff (na : List Bool) (f : Bool) (n : Nat) :
+    List.replicate na.length (0 : Int) ∈ lattice na f n ↔ (f = true → na ≠ [] → n = 0) := by
+  rw [mem_lattice, l1_zero]
+  constructor
+  · rintro ⟨_, h⟩ hf hna
+    cases na with
+    | nil => exact absurd rfl hna
+    | cons b bs => simp [hf] at h; omega
+  · intro h
+    refine ⟨signOK_zero na, ?_⟩
+    cases na with
+    | nil => simp
+    | cons b bs =>
+      cases f with
+      | false => simp
+      | true => simp; exact (h rfl (by simp)).symm
+
+/-- The zero point is mapped to the zero multiplier vector (whatever the bases). -/
+theorem zero_point_gives_zero_lambda (rows : List (List Rat × List Rat)) (limit : Rat) (n d : Nat) :
+    lambdaOf rows (scaleCoefs limit n (List.replicate d 0)) = List.replicate rows.length 0 :=
+  lambdaOf_zero rows limit n d
+
+/-- On a unit basis the zero multiplier vector is in the grid iff the zero point is among the first
+    `grid_size` lattice points (position in the lexicographic enumeration `< grid_size`). -/
+theorem zero_lambda_mem_grid_iff (na : List Bool) (f : Bool) (gs : Nat) (limit : Rat) (hlim : 0 < limit)
+    (rows : List (List Rat × List Rat)) (n : Nat) (g : List (List Rat))
+    (hu : unitBasis na rows = true) (hg : grid na f gs limit rows = .ok (n, g)) :
+    List.replicate rows.length (0 : Rat) ∈ g ↔
+      List.replicate na.length (0 : Int) ∈ (lattice na f n).take gs := by
+  rw [grid_def] at hg
+  split at hg
+  · cases hg
+  · cases hg
+  · next k hk =>
+    cases hg
+    have hs : (0 : Rat) < limit / ((k + 1 : Nat) : Rat) := div_pos hlim (by exact_mod_cast Nat.succ_pos k)
+    rw [← lambdaOf_zero rows limit (k + 1) na.length]
+    constructor
+    · intro hm
+      obtain ⟨v, hv, he⟩ := List.mem_map.mp hm
+      have h1 := (mem_lattice na f (k + 1) v).mp (List.mem_of_mem_take hv)
+      have := lambdaOf_inj hu limit (k + 1) hs v _ h1.1 (signOK_zero na) he
+      rw [← this]; exact hv
+    · intro hm; exact List.mem_map.mpr ⟨_, hm, rfl⟩
+
+/-- With the L1 norm forced (objective in the span: BoundedGroupLoss) the zero multiplier vector is never
+    a grid point (unit basis). -/
+theorem forced_grid_excludes_zero (na : List Bool) (gs : Nat) (limit : Rat) (hlim : 0 < limit)
+    (rows : List (List Rat × List Rat)) (n : Nat) (g : List (List Rat)) (hna : na ≠ [])
+    (hu : unitBasis na rows = true) (hg : grid na true gs limit rows = .ok (n, g)) :
+    List.replicate rows.length (0 : Rat) ∉ g := by
+  rw [zero_lambda_mem_grid_iff na true gs limit hlim rows n g hu hg]
+  intro hm
+  have h1 := (zero_mem_lattice_iff na true n).mp (List.mem_of_mem_take hm) rfl hna
+  have := (grid_length na true gs limit rows n g hg).2.2
+  omega
+
+/-- On a unit basis whose columns sum to at most 1 (both hypotheses are evaluated by the driver on the bases of
+    every fitted moment) the L1 norm of EVERY grid vector is exactly `l1(v)·grid_limit/n_units` of its lattice
+    point; with `force_L1_norm` (objective in the span: BoundedGroupLoss) it is EXACTLY `grid_limit`, as the
+    docstring of `_GridGenerator` promises. -/
+theorem forced_grid_l1_eq_limit (na : List Bool) (gs : Nat) (limit : Rat) (hlim : 0 < limit)
+    (rows : List (List Rat × List Rat)) (n : Nat) (g : List (List Rat)) (hna : na ≠ [])
+    (hu : unitBasis na rows = true) (hb : basisOK na.length rows = true)
+    (hg : grid na true gs limit rows = .ok (n, g)) :
+    ∀ lam ∈ g, (lam.map (fun x => |x|)).sum = limit := by
+  intro lam hl
+  have hnn := grid_nonneg na true gs limit rows n g hb hg lam hl
+  obtain ⟨hn, v, hv, rfl⟩ := grid_mem na true gs limit rows n g hg lam hl
+  have habs : (lambdaOf rows (scaleCoefs limit n v)).map (fun x => |x|) = lambdaOf rows (scaleCoefs limit n v) := by
+    conv_rhs => rw [← List.map_id (lambdaOf rows (scaleCoefs limit n v))]
+    apply List.map_congr_left
+    intro x hx; simp [abs_of_nonneg (hnn x hx)]
+  rw [habs]
+  have hnpos : (0 : Rat) < n := by exact_mod_cast hn
+  have hs : 0 < limit / (n : Rat) := div_pos hlim hnpos
+  have hsign := ((mem_lattice na true n v).mp hv).1
+  rw [lambdaOf_sum_eq hu hb (limit / n) hs n limit rfl v hsign, (lattice_l1 na true n v hv).2.2 rfl hna]
+  field_simp
+
+/-! ### grid_offset -/
+
+/-- Shifting every multiplier vector by `grid_offset` (`_grid.add(self.grid_offset, axis="index")`)
+    preserves their number and their distinctness. -/
+theorem grid_offset_distinct (na : List Bool) (f : Bool) (gs : Nat) (limit : Rat) (hlim : 0 < limit)
+    (rows : List (List Rat × List Rat)) (n : Nat) (g : List (List Rat)) (off : List Rat)
+    (hoff : off.length = rows.length) (hu : unitBasis na rows = true)
+    (hg : grid na f gs limit rows = .ok (n, g)) :
+    (addOffset off g).length = g.length ∧ (addOffset off g).Nodup := by
+  refine ⟨by simp [addOffset], addOffset_nodup off g ?_ (grid_distinct na f gs limit hlim rows n g hu hg)⟩
+  intro lam hl
+  obtain ⟨_, v, _, rfl⟩ := grid_mem na f gs limit rows n g hg lam hl
+  rw [lambdaOf_length, hoff]
+
+/-! ### selection across the whole loop, delegation -/
+
+/-- a running arg-min (`best`, `best_idx` updated on a strictly smaller loss while scanning the losses)
+    returns the same index as `losses.index(min(losses))` -/
+theorem runningArgmin_eq (l : List Rat) : runningArgmin l = argminFirst l :=
+  runningArgmin_eq_argminFirst l
+
+/-- For ANY list of `(objective, gamma)` records: the selected index is in range, its trade-off loss
+    `(1-cw)·objective + cw·max(gamma)` is minimal, and it is the first index with that loss. -/
+theorem select_spec (cw : Rat) (recs : List (Rat × List Rat)) (i : Nat) (h : select cw recs = some i) :
+    ∃ losses : List Rat, recs.map (fun r => tradeoff cw r.1 r.2) = losses.map some ∧
+      ∃ hi : i < losses.length, (∀ y ∈ losses, losses[i] ≤ y) ∧
+        ∀ (j : Nat) (hj : j < i), losses[i] < losses[j]'(by omega) := by
+  simp only [select, Option.bind_eq_some_iff] at h
+  obtain ⟨losses, hl, ha⟩ := h
+  exact ⟨losses, allSomeR_spec _ _ hl, argminFirst_spec losses i ha⟩
+
+/-- `predict` / `predict_proba` return what the selected predictor returns. -/
+theorem predict_delegates {P Y : Type} (run : P → Y) (preds : List P) (best : Nat) (hb : best < preds.length) :
+    predictWith run preds best = some (run preds[best]) := by
+  simp [predictWith, hb]
+
+/-! ### the whole loop of `GridSearch.fit` -/
+
+/-- THE PROPERTY IN ONE STATEMENT, for the loop `for i in grid.columns: …` as modelled by `fitLoop` (weights =
+    constraint weights [+ objective weights], lifted relabelling, lifted dummy rule, base learner = parameter, records
+    computed from the trained predictor, lifted trade-off loss and arg-min):  with a base learner that minimises the
+    weighted 0/1 error over a class `H` of labelings,
+      * one predictor per grid point, and each minimises the weighted 0/1 error on the data relabelled / reweighted
+        for ITS OWN multiplier vector over `H` (the DummyClassifier shortcut included),
+      * `objectives_` / `gammas_` are the values of exactly those predictors,
+      * `best_idx_` is in range, minimises `(1-cw)·objective + cw·max(gamma)` and is the first such index. -/
+theorem fit_spec (span : Bool) (cwOf : List Rat → List Rat) (ow : List Rat)
+    (learner : List (Nat × Rat) → List Nat) (objOf : List Nat → Rat) (gamOf : List Nat → List Rat)
+    (cw : Rat) (grid : List (List Rat)) (out : FitOut) (H : List Nat → Prop)
+    (hex : ∀ w h', H h' → weighted01 (relabel w) (learner (relabel w)) ≤ weighted01 (relabel w) h')
+    (h : fitLoop span cwOf ow learner objOf gamOf cw grid = some out) :
+    out.preds = grid.map (fun lam => trainAt learner (relabel (combineWeights span (cwOf lam) ow))) ∧
+    (∀ lam ∈ grid, ∀ h', H h' →
+      weighted01 (relabel (combineWeights span (cwOf lam) ow))
+          (trainAt learner (relabel (combineWeights span (cwOf lam) ow))) ≤
+        weighted01 (relabel (combineWeights span (cwOf lam) ow)) h') ∧
+    out.objectives = out.preds.map objOf ∧ out.gammas = out.preds.map gamOf ∧
+    ∃ losses : List Rat, out.preds.map (fun p => tradeoff cw (objOf p) (gamOf p)) = losses.map some ∧
+      ∃ hb : out.best < losses.length, (∀ y ∈ losses, losses[out.best] ≤ y) ∧
+        ∀ (j : Nat) (hj : j < out.best), losses[out.best] < losses[j]'(by omega) := by
+  simp only [fitLoop, Option.map_eq_some_iff] at h
+  obtain ⟨b, hsel, rfl⟩ := h
+  refine ⟨rfl, ?_, by simp, by simp, ?_⟩
+  · intro lam _ h' hh'
+    exact trainAt_minimises learner H _ (hex _) h' hh'
+  · obtain ⟨losses, hl, hspec⟩ := select_spec cw _ b hsel
+    refine ⟨losses, ?_, hspec⟩
+    rw [← hl]; simp only [List.map_map]; rfl
+
+/-- … hence (reduction identity of C07: `error + λ·γ = K − c·Σ wᵢhᵢ`, `c > 0`, `w` = the combined signed weights)
+    every trained predictor minimises `error + λ·γ` of its own multiplier over the class. -/
+theorem fit_predictor_minimises_lagrangian (learner : List (Nat × Rat) → List Nat) (H : List Nat → Prop)
+    (w : List Rat) (K c : Rat) (hc : 0 < c) (F : List Nat → Rat)
+    (hF : ∀ h, F h = K - c * dot w (toRat h))
+    (hex : ∀ h', H h' → weighted01 (relabel w) (learner (relabel w)) ≤ weighted01 (relabel w) h')
+    (hshape : (learner (relabel w)).length = w.length ∧ ∀ x ∈ learner (relabel w), x = 0 ∨ x = 1)
+    (hH : ∀ h', H h' → w.length = h'.length ∧ ∀ x ∈ h', x = 0 ∨ x = 1) :
+    ∀ h', H h' → F (trainAt learner (relabel w)) ≤ F h' := by
+  intro h' hh'
+  obtain ⟨hl, hb⟩ := trainAt_shape learner w hshape
+  obtain ⟨hl', hb'⟩ := hH h' hh'
+  exact (best_response_argmin w K c hc F hF _ h' hl.symm hl' hb hb').mp
+    (trainAt_minimises learner H w hex h' hh')
+
 /-! Non-vacuity: concrete inputs evaluated by the kernel. -/
 example : lattice [true, false] false 1 = [[-1, 0], [0, 0], [0, 1], [1, 0]] := by decide +kernel
 example : lattice [false, false, false] true 2 =
@@ -300,5 +573,15 @@ example : grid [true, true] false 4 2 dpRows = .ok (1,
 example : argminFirst [3, 1, 2, 1] = some 1 := by decide +kernel
 example : tradeoff (1/2) (1/4) [-1/8, 1/8] = some (3/16) := by decide +kernel
 example : weighted01 (relabel [2, -1, 0]) [0, 1, 1] = 3 := by decide +kernel
+example : srcLattice [true, false] false 1 = [[-1, 0], [0, 0], [0, 1], [1, 0]] := by decide +kernel
+example : GridSrc.noOvershoot 7 2 2 0 = true ∧ GridSrc.noOvershoot 9 0 2 2 = true ∧
+    GridSrc.noOvershoot 8 0 2 2 = false := by decide +kernel
+example : searchFrom [true, true] false 7 9 0 = some 2 ∧ searchFrom [true, true] false 7 9 4 = some 4 := by
+  decide +kernel
+example : runningArgmin [3, 1, 2, 1] = some 1 := by decide +kernel
+example : trainAt (fun _ => [1, 0, 1]) (relabel [-1, -2, 0]) = [0, 0, 0] ∧
+    trainAt (fun _ => [1, 0, 1]) (relabel [-1, 2, 0]) = [1, 0, 1] := by decide +kernel
+example : select (1/2) [(1/4, [-1/8, 1/8]), (0, [1/2]), (1/8, [1/8, 0])] = some 2 := by decide +kernel
+example : (lattice [true, true] false 1).take 2 = [[-1, 0], [0, -1]] := by decide +kernel
 
 end C09
